@@ -1,0 +1,6 @@
+//go:build !verif
+
+package limiter
+
+// verifPoint is a schedule point of the verification harness; without the "verif" build tag it is an empty, inlinable function.
+func verifPoint(name string) {}
